@@ -108,3 +108,26 @@ for _nm in ('div', 'div_loop'):
     spec('bit.' + _nm, 'bit.%s {n}, a, b, q, r' % _nm, {'a': N, 'b': N, 'q': N, 'r': N}, _udiv, ns=(1, 2, 3, 4, 6))
 for _nm in ('idiv', 'idiv_loop'):
     spec('bit.' + _nm, 'bit.%s {n}, a, b, q, r' % _nm, {'a': N, 'b': N, 'q': N, 'r': N}, _sdiv, ns=(2, 3, 4, 6))
+
+
+# ---- aliased operands (round g): an output of the division written onto one of its inputs (a /= b, b = a / b, a %= b ...).
+# The documentation states no aliasing restriction for these macros (it does where one exists: mul_loop, unsafe_mov);
+# the forms below are the ones the unchanged tree computes correctly, kept as oracles.
+def _udiv_alias(qv, rv):
+    def f(e, n, m, C, K):
+        if e['b'] == 0:
+            return {}
+        out = {}
+        q, r = e['a'] // e['b'], e['a'] % e['b']
+        # r is written after q when both alias the same variable cannot happen here (qv != rv)
+        out[qv] = q
+        out[rv] = r
+        return out
+    return f
+
+
+for _nm in ('div', 'div_loop'):
+    spec('bit.%s q=a' % _nm, 'bit.%s {n}, a, b, a, r' % _nm, {'a': N, 'b': N, 'r': N}, _udiv_alias('a', 'r'), ns=(2, 3, 6))
+    spec('bit.%s q=b' % _nm, 'bit.%s {n}, a, b, b, r' % _nm, {'a': N, 'b': N, 'r': N}, _udiv_alias('b', 'r'), ns=(2, 3, 6))
+    spec('bit.%s r=a' % _nm, 'bit.%s {n}, a, b, q, a' % _nm, {'a': N, 'b': N, 'q': N}, _udiv_alias('q', 'a'), ns=(2, 3, 6))
+    spec('bit.%s r=b' % _nm, 'bit.%s {n}, a, b, q, b' % _nm, {'a': N, 'b': N, 'q': N}, _udiv_alias('q', 'b'), ns=(2, 3, 6))
